@@ -22,8 +22,8 @@ using CH = wchar_t;
 #else
 using CH = char;
 #endif
-// the native (g++) build of the kernel always executes the gcc configuration of the public headers
-#if G || defined(VF_NATIVE)
+// G=1: gcc configuration of the public headers (portable templates), see kernel.cpp
+#if G
 #define GCC 1
 #else
 #define GCC 0
